@@ -16,6 +16,8 @@ pub enum Action {
     Lock(u32),
     // the handler takes this many milliseconds (timing only: no effect on any state)
     Sleep(u64),
+    // the handler locks the public handle of a context and, while it holds the guard, performs another action
+    LockWhile(u32, Box<Action>),
 }
 
 #[derive(Clone, Debug)]
@@ -164,6 +166,7 @@ fn p_action(c: &mut Cur) -> Action {
         }
         b'K' => Action::Lock(c.field().parse().unwrap()),
         b'Z' => Action::Sleep(c.field().parse().unwrap()),
+        b'Y' => { let cx: u32 = c.field().parse().unwrap(); let inner = p_action(c); Action::LockWhile(cx, Box::new(inner)) }
         _ => panic!("bad action"),
     }
 }
@@ -240,6 +243,7 @@ fn run_action(a: &Action) {
         Action::RegI(n, p, se, ri, h) => register_infix(n, *p, *se, *ri, *h),
         Action::Lock(c) => { let cx = ctx(*c); let g = cx.0.lock().unwrap(); drop(g); }
         Action::Sleep(ms) => std::thread::sleep(std::time::Duration::from_millis(*ms)),
+        Action::LockWhile(c, inner) => { let cx = ctx(*c); let g = cx.0.lock().unwrap(); run_action(inner); drop(g); }
     }
 }
 
